@@ -9,7 +9,7 @@ from pathlib import Path
 import vlib
 
 ROUTES_JSON = vlib.LEAN / "KrillModel/Generated/Routes.json"
-CONFIG_WORDS = ("cfg", "role", "user", "unix", "norm", "foreign")
+CONFIG_WORDS = ("cfg", "role", "user", "unix", "norm", "foreign", "start")
 
 
 def routes():
